@@ -138,7 +138,7 @@ def mask_app(req, r, tcp):
             if body[20:24] == b"\0\0\0\0" and rq[12:16] == struct.pack("!I", 100000) and rq[20:24] in (b"\0\0\0\3", b"\0\0\0\4"):
                 return ("rpc-portmap", body[:24])
             return ("rpc", body)
-    return ("raw", runner.DATE_RE.sub(b"\nDate: X\n", r))
+    return ("raw", runner.mask_app(r))
 
 
 def payload_of(script):
@@ -167,7 +167,7 @@ def evaluate_custom(scripts, drivers):
                     pr = net.parse_frame(a.reply)
                     app = pr.app if (pr is not None and pr.app) else None
                 masked.append((a.kind if a.kind == "P" else "ok", mask_app(req, app, tcp)))
-                nf = lambda r: tuple(runner.DATE_RE.sub(b"\nDate: X\n", x) if isinstance(x, (bytes, bytearray)) else x
+                nf = lambda r: tuple(runner.mask_app(x) if isinstance(x, (bytes, bytearray)) else x
                                      for x in net.norm_frame(r))
                 ra = ("R",) + nf(a.reply) if a.kind == "R" else (a.kind,)
                 rb = ("R",) + nf(b.reply) if b.kind == "R" else (b.kind,)
